@@ -238,11 +238,19 @@ class JSONPointer:
             JSONPointerTypeError: When attempting to resolve a non-index string
                 path part against a sequence.
         """
-        if not self.parts:
-            return (None, self.resolve(data))
+        return self._resolve_parent(load_data(data))
 
-        _data = load_data(data)
-        parent = reduce(self._getitem, self.parts[:-1], _data)
+    def _resolve_parent(
+        self, data: Any
+    ) -> Tuple[Union[Sequence[object], Mapping[str, object], None], object]:
+        """`resolve_parent()` for a document that is loaded already.
+
+        A `str` is a string value here, not JSON text to be decoded.
+        """
+        if not self.parts:
+            return (None, data)
+
+        parent = reduce(self._getitem, self.parts[:-1], data)
 
         try:
             return (parent, self._getitem(parent, self.parts[-1]))
